@@ -150,6 +150,19 @@ def run_shard(spec, acc):
     else:
         rnd = random.Random(spec["seed"])
         for i in range(spec["n"]):
+            if rnd.random() < 0.15:
+                kind = rnd.choice(["arch", "arch", "rule"])
+                k = rnd.randint(2, 3)
+                if kind == "arch":
+                    seqs = [[rnd.choice(ARCH_VOCAB) for _ in range(rnd.randint(3, 8))] for _ in range(k)]
+                else:
+                    seqs = [[RULE_VOCAB[0], RULE_VOCAB[1]] + [rnd.choice(RULE_VOCAB) for _ in range(rnd.randint(2, 6))] for _ in range(k)]
+                schedule = [j for j, q in enumerate(seqs) for _ in q]
+                rnd.shuffle(schedule)
+                interleaved_builders(seqs, schedule, kind, acc)
+                acc.nontrivial({"s": seqs, "o": schedule})
+                acc.count("random_sequences")
+                continue
             if rnd.random() < 0.6:
                 seq = [rnd.choice(ARCH_VOCAB) for _ in range(rnd.randint(6, 12))]
                 seq = [("layer", rnd.choice(["A", "B", "C", "D", "", "a"])) if s[0] == "layer" else s for s in seq]
@@ -188,7 +201,39 @@ def run_shard(spec, acc):
             acc.count("random_sequences")
 
 
+def interleaved_builders(seqs, schedule, kind, acc):
+    """Two or three builders of the same class executing their own call sequences with the calls interleaved (continuing
+    after rejected calls): the trace monitor judges every call against the history of the object it was made on."""
+    from pytestarch import LayeredArchitecture, LayerRule
+
+    HUB.case = {"kind": "interleaved", "of": kind, "seqs": seqs, "schedule": schedule}
+    objs = [LayeredArchitecture() if kind == "arch" else LayerRule() for _ in seqs]
+    archs = [fresh_arch() for _ in seqs] if kind == "rule" else None
+    pos = [0] * len(seqs)
+    for i in schedule:
+        if pos[i] >= len(seqs[i]):
+            continue
+        sym = seqs[i][pos[i]]
+        pos[i] += 1
+        try:
+            if sym[0] == "based_on":
+                objs[i].based_on(archs[i])
+            else:
+                _apply(objs[i], sym)
+        except Exception:  # noqa: BLE001 (judged by the trace monitor)
+            if kind == "rule":
+                # a rejected LayerRule call ends that chain (as in the exhaustive sweep)
+                pos[i] = len(seqs[i])
+        acc.evaluated()
+        if all(p >= len(q) for p, q in zip(pos, seqs)):
+            break
+    acc.count("builders_driven_interleaved", len(seqs))
+
+
 def replay(case, acc):
+    if case["kind"] == "interleaved":
+        seqs = [[tuple(x) if not isinstance(x[1], list) else (x[0], x[1]) for x in q] for q in case["seqs"]]
+        return interleaved_builders(seqs, case["schedule"], case["of"], acc)
     seq = [tuple(s) if not isinstance(s[1], list) else (s[0], s[1]) for s in case["seq"]]
     if case["kind"] == "rule":
         run_rule_sequence(seq, acc)
@@ -208,7 +253,7 @@ def replay(case, acc):
 
 def floors(acc, tier):
     why = []
-    for c, n in (("c16_arch_violating_calls", 1000), ("c16_rule_violating_calls", 100), ("c16_accepted_definitions_checked", 1000), ("sequences", 5000)):
+    for c, n in (("c16_arch_violating_calls", 1000), ("c16_rule_violating_calls", 100), ("c16_accepted_definitions_checked", 1000), ("sequences", 5000), ("builders_driven_interleaved", 100)):
         if acc.counters[c] < n:
             why.append(f"{c}: only {acc.counters[c]}")
     h = acc.hists.get("c16_violating_kind", {})
